@@ -159,6 +159,9 @@ def build(world):
     group_objs = {}
     for d in spec['devices']:
         k, name = d['k'], d['name']
+        key = name
+        if d.get('default_name'):
+            name = None          # the library derives the name from the asset id
         # a device listed in a group is created first; the group is created when its first path is needed
         up = [world.dev[u] for u in d.get('up', [])]
         if k == 'source':
@@ -222,9 +225,9 @@ def build(world):
             world.maintainer = obj
         else:
             raise ValueError(k)
-        world.dev[name] = obj
-        world.kind[name] = k
-        world.order.append(name)
+        world.dev[key] = obj
+        world.kind[key] = k
+        world.order.append(key)
     for d in spec['devices']:
         if d.get('up_late'):
             world.dev[d['name']].set_upstream([world.dev[u] for u in d['up_late']])
@@ -1198,7 +1201,8 @@ class DataMon(Monitor):
         self.dispatched.append((z(w.env.now), ev.asset_id, getattr(ev.action, '__name__', '?'), 'cancelled' if ev.cancelled else ''))
         out_vals = {n: (w.dev[n]._output.value if w.dev[n]._output is not None else None) for n in self.fin}
         rm = w.env.resource_manager
-        pool = {r: (rm.get_resource_usage(r), rm.get_resource_capacity(r)) for r in data.get('resource_update', {})}
+        names = set(data.get('resource_update', {})) | set(w.spec.get('pools', {})) | getattr(self, 'pools_touched', set())
+        pool = {r: (rm.get_resource_usage(r), rm.get_resource_capacity(r)) for r in names}
         with ctx.notrace():
             now = w.now()
             for n in w.order:
@@ -1237,7 +1241,11 @@ class DataMon(Monitor):
                         nl += len(leaves(d.collected_parts[i])) if i < len(d.collected_parts) else 1
                     ctx.require(d.received_parts_count == nl, 'sink counter != parts in its received records', n)
             for r, (use, cap) in pool.items():
-                last = data['resource_update'][r][-1]
+                recs_r = data.get('resource_update', {}).get(r, [])
+                if not recs_r:
+                    ctx.require(ctx.And(z(cap) == 0, z(use) == 0), 'a pool exists that has no resource_update record', r)
+                    continue
+                last = recs_r[-1]
                 ctx.require(z(last[1]) == z(use) and z(last[2]) == z(cap), 'last resource_update record != pool', r)
                 ctx.goal('resource_recorded')
             for n in w.order:
@@ -1259,6 +1267,10 @@ class DataMon(Monitor):
                 ctx.require(ns - nf == len(w.maintainer._active_requests) - len([e for e in w.env._events
                             if getattr(getattr(e.action, 'func', None), '__name__', '') == '_start_work_order']),
                             'start/finish records out of step with orders in progress')
+
+    def after_op(self, i, op):
+        if op['k'] == 'addres':
+            self.pools_touched = getattr(self, 'pools_touched', set()) | {op['res']}
 
     def on_work_order_request(self, dev, tag, ok):
         if ok:
@@ -1395,8 +1407,10 @@ class ResourceMon(Monitor):
         w, ctx = self.w, self.ctx
         for n in self.decl:
             d = w.dev[n]
-            if d.is_operational() and d._part is None:
-                ctx.require(d._reserved_resources is None, 'idle operational processor holds resources while time advances', n)
+            if d._part is None:
+                ctx.require(d._reserved_resources is None,
+                            'idle operational processor holds resources while time advances' if d.is_operational() else
+                            'processor without a part in process keeps its resources through a shutdown', n)
                 ctx.goal('idle_processor_released')
 
 
